@@ -200,6 +200,8 @@ def check_C13(ctx):
     for i, (src, tag) in enumerate(specials):
         if len(src) > 3000 and not ctx.thorough:
             continue
+        if len(src) > 100000:
+            continue              # every cut point of a 66 KB dump twice over is left to the string case of similar size
         cases.append(dict(id="%s-%d" % (tag, i), src_hex=src.hex(), name="nm", sizes=[]))
     for i in range(ctx.n(25, 300)):
         cases.append(dict(id="rand-%d" % i, src_hex=g.program().hex(), name=names_for(rng, i)[:300],
@@ -231,7 +233,12 @@ def check_C13(ctx):
                               dict(src_hex=c["src_hex"], dump_hex=r["dump"], cut=cut["cut"], sizes=c["sizes"], options="disasm,stats,trace"),
                               impl=cut, theorem="C13_truncated", key="prefix-opts-" + cut["opts_class"])
         # model on a sample of cut points (all of them for small dumps)
-        cuts = r["cuts"] if len(dump) <= 400 or ctx.thorough else rng.sample(r["cuts"], min(len(r["cuts"]), 60))
+        if len(dump) <= 400 or (ctx.thorough and len(dump) <= 20000):
+            cuts = r["cuts"]
+        else:
+            # large dumps: the model on the first and last 300 cut points and a random sample in between
+            k = 3000 if ctx.thorough else 60
+            cuts = r["cuts"][:300] + r["cuts"][-300:] + rng.sample(r["cuts"], min(len(r["cuts"]), k)) if ctx.thorough else rng.sample(r["cuts"], min(len(r["cuts"]), k))
         for cut in cuts:
             items.append(("loadwhole", "%s/%d" % (c["id"], cut["cut"]), dump[:cut["cut"]], cut))
     # header sweep: all 2^16 magic values (thorough) or a sample, all version pairs around the valid one
